@@ -1030,7 +1030,9 @@ fn run_seq(ops: &[SOp], leave: bool) -> SeqOut {
                                             cached[0] = Some(TokInfo { kind: n.kind, version: n.version, minv: n.minv, issuer, handed_by: m });
                                         }
                                     }
-                                    if returned { cached[slot] = Some(inf); }
+                                    // after a failed closure the token is released - or, for all the property cares, still cached:
+                                    // then it counts as "maybe live" like every cached token
+                                    if returned || cached[slot].is_none() { cached[slot] = Some(inf); }
                                     o.push(inf.version as i128);
                                 }
                             }
@@ -1462,7 +1464,7 @@ fn rand_prog(r: &mut Rng, len: usize, cache: bool) -> Vec<Op> {
 
 pub fn run(args: &Args) {
     let mut cx = Ctx {
-        sum: Summary::new("C16", "real threads parked at schedule hooks before every shared access of acquire/release/try_advance; all schedules with a bounded number of pre-emptions (all schedules for the single-operation races) of fixed 2-3 thread programs at every ConcurrencyLevel, random programs under random schedules, sequential histories over 1-3 managers with cached tokens and manager drops; a concurrent run is non-trivial when it has >= 2 context switches at a level that tracks versions, a sequential one when it has >= 2 managers and >= 5 operations; distinct = distinct (programs, executed schedule)"),
+        sum: Summary::new("C16", "real threads parked at schedule hooks before every shared access of acquire/release/try_advance; all schedules with a bounded number of pre-emptions (all schedules for the single-operation races) of fixed 2-3 thread programs at every ConcurrencyLevel, random programs under random schedules, sequential histories over 1-3 managers with cached tokens and manager drops; a concurrent run is non-trivial when it has >= 2 context switches at a level that tracks versions, a sequential one when it has >= 2 managers and >= 5 operations; distinct = distinct (programs, executed schedule). Oracle breadth (cells concx/L*, seqx, long, lazy_free_list; oracle only, not replayed by the model): with_reader_token / with_writer_token (closure succeeds, fails, panics, asks for a second token, nested) and TokenAccess::{read,write}_with_manager, TokenManager::with_version_manager (several doors to one set of counters), a TokenCache owned by the history (cache_*_token, get_*_token, get_*_token_for, clear), tokens handed to and released by another thread (dropped, cached there, thread exit), clear_all_stats / clear_stats between operations, validate_token_version and issued_by of every held token against every manager after every step, VersionManagerStats::active_readers/active_writers against the counters, tokens lent to CompressedSparseTrie::*_with_token, LazyFreeList::{default, with_bulk_threshold 0..usize::MAX, should_bulk_process-gated processing, clear_stats, can_free}, 40-item retirements in controlled runs, generated single-thread histories of up to 500000 operations (named by level, n, seed, threshold) with versions and queues beyond 2^16"),
         shards: CoqShards::new(HEADER, 300),
         coq_budget: if args.thorough { 6000 } else { 1200 },
         rng: Rng::new(args.seed),
@@ -1541,7 +1543,7 @@ pub fn run(args: &Args) {
     // 3x. random programs over the whole operation set, random thresholds of the shared list, oracle only
     let nrand_x = if args.thorough { 60000 } else { 2500 };
     for k in 0..nrand_x {
-        if t0.elapsed().as_secs() > t_rand + 10 { cx.sum.dist("random_x_phase_cut_by_time"); break; }
+        if t0.elapsed().as_secs() > t_rand + (if args.thorough { 150 } else { 10 }) { cx.sum.dist("random_x_phase_cut_by_time"); break; }
         let mut r = Rng::new(cx.rng.next());
         let level = *r.pick(&[3u8, 3, 3, 4, 4, 2, 1, 0]);
         let nt = if r.chance(1, 3) { 3 } else { 2 };
